@@ -37,11 +37,11 @@ for f, (c8, ctag, bounded, ctx, crx, tier) in FLAV.items():
   if bounded:
     emit(f"c03_{t}_{f}_send", 3, "u8", new8, cap, "false", 3, 0, 2, "G_SEND | O_TRY_RECV", unw, 0, [("m.n_full > 0", "a send reported Full"), ("m.q.len == 2", "channel full at the end")])
     emit(f"c03_{t}_{f}_sbatch", 3, "u8", new8, cap, "false", k, 0, 1, "G_SBATCH", unw, 0, [("m.n_partial > 0", "a batch was partially sent"), ("m.n_full > 0", "a batch reported Full")])
-    emit(f"c03_t_{f}_sbatch_mut", 3, "u8", new8, cap, "false", 1, 0, 1, "G_SBATCH_MUT", unw, 0, [("m.next > 1", "an in-place batch was submitted")])
+    emit(f"c03_q_{f}_sbatch_mut", 3, "u8", new8, cap, "false", 1, 0, 1, "G_SBATCH_MUT", unw, 0, [("m.next > 1", "an in-place batch was submitted")])
     new1 = c8.format(c=1)
     emit(f"c03_{t}_{f}_cap1", 3, "u8", new1, "Some(1)", "false", 2, 0, 2, "O_TRY_SEND | O_TRY_SEND_BATCH | O_TRY_RECV", unw, 0, [("m.n_full > 0", "a send reported Full")])
     new3 = c8.format(c=3)
-    emit(f"c03_t_{f}_cap3", 3, "u8", new3, "Some(3)", "false", 3, 0, 2, "O_TRY_SEND | O_TRY_SEND_BATCH | O_TRY_RECV | O_TRY_RECV_BATCH", 6, 0, [("m.n_full > 0", "a send reported Full")])
+    emit(f"c03_q_{f}_cap3", 3, "u8", new3, "Some(3)", "false", 3, 0, 2, "O_TRY_SEND | O_TRY_SEND_BATCH | O_TRY_RECV | O_TRY_RECV_BATCH", 6, 0, [("m.n_full > 0", "a send reported Full")])
   # C04: one lifecycle event on one side, then each operation group
   TXL = "O_CLOSE_TX | O_DROP_TX | O_NOP"; RXL = "O_CLOSE_RX | O_DROP_RX | O_NOP"
   emit(f"c04_{t}_{f}_send_txlife", 4, "u8", new8, cap, "false", 1, TXL, 1, "G_SEND | O_CLOSE_TX", unw, drain, [("m.n_closed > 0", "a send on a closed handle reported Closed"), ("m.n_close_err > 0", "second close reported CloseError")])
